@@ -5,6 +5,7 @@ import (
 	"math/big"
 	"regexp"
 	"strings"
+	"sync"
 
 	"github.com/grindlemire/go-lucene/verif/gen"
 )
@@ -82,7 +83,41 @@ func WildMatch(pattern, s string) bool {
 		}
 	}
 	b.WriteString(`)$`)
-	return regexp.MustCompile(b.String()).MatchString(s)
+	return compiled(b.String()).MatchString(s)
+}
+
+var (
+	reMu    sync.Mutex
+	reCache = map[string]*regexp.Regexp{}
+)
+
+func compiled(src string) *regexp.Regexp {
+	re, err := compiledErr(src)
+	if err != nil {
+		panic(err)
+	}
+	return re
+}
+
+func compiledErr(src string) (*regexp.Regexp, error) {
+	reMu.Lock()
+	defer reMu.Unlock()
+	if re, ok := reCache[src]; ok {
+		if re == nil {
+			return nil, fmt.Errorf("invalid regexp %q", src)
+		}
+		return re, nil
+	}
+	if len(reCache) > 50000 {
+		reCache = map[string]*regexp.Regexp{}
+	}
+	re, err := regexp.Compile(src)
+	if err != nil {
+		reCache[src] = nil
+		return nil, err
+	}
+	reCache[src] = re
+	return re, nil
 }
 
 // SimilarMatch is PostgreSQL's SIMILAR TO (similar_to_escape with the default
@@ -127,7 +162,7 @@ func SimilarMatch(pattern, s string) (bool, error) {
 		}
 	}
 	b.WriteString(`)$`)
-	re, err := regexp.Compile(b.String())
+	re, err := compiledErr(b.String())
 	if err != nil {
 		return false, fmt.Errorf("invalid SIMILAR TO pattern %q: %v", pattern, err)
 	}
